@@ -380,6 +380,10 @@ def main():
 
     if write_if_changed(OUT / "CacheSkeleton.lean", gen_cache_skeleton.generate(REPO)):
         changed.append("Generated/CacheSkeleton.lean")
+    import gen_guard_skeleton  # C09 order of checks and mutations in the editing entry points
+
+    if write_if_changed(OUT / "GuardSkeleton.lean", gen_guard_skeleton.generate(REPO)):
+        changed.append("Generated/GuardSkeleton.lean")
     for c in changed:
         print("regenerated", c)
 
